@@ -114,12 +114,17 @@ def escape (cs : List Char) : Bytes := cs.flatMap escapeChar
 
 def quote (cs : List Char) : Bytes := 0x22 :: (escape cs ++ [0x22])
 
+/-- the literals `true`, `false`, `null` -/
+def bT : Bytes := [0x74, 0x72, 0x75, 0x65]
+def bF : Bytes := [0x66, 0x61, 0x6c, 0x73, 0x65]
+def bN : Bytes := [0x6e, 0x75, 0x6c, 0x6c]
+
 mutual
 /-- `stringify` (stringify.rs:3-12), `JsonArray::stringify`, `JsonObject::stringify` -/
 def stringify {N : Type} (ops : NumOps N) : JsonValue N â†’ Bytes
-  | .null => "null".toUTF8.toList
-  | .bool true => "true".toUTF8.toList
-  | .bool false => "false".toUTF8.toList
+  | .null => bN
+  | .bool true => bT
+  | .bool false => bF
   | .num n => ops.show_ n
   | .str s => quote s
   | .arr xs => 0x5b :: (stringifyItems ops xs ++ [0x5d])
@@ -342,15 +347,17 @@ def lookupKV {V : Type} (k : List Char) : List (List Char Ã— V) â†’ Option V
 
 /-! ### the recursive parser (`parse.rs`, `parse_array_entries`, `parse_object_entries`) -/
 
-def bT : Bytes := [0x74, 0x72, 0x75, 0x65]
-def bF : Bytes := [0x66, 0x61, 0x6c, 0x73, 0x65]
-def bN : Bytes := [0x6e, 0x75, 0x6c, 0x6c]
-
 /-- `iter.advance()` when a byte is known to be peeked -/
 def Iter.advance (it : Iter) : Iter :=
   match it.rest with
   | [] => it
   | b :: r => { it with pre := b :: it.pre, rest := r }
+
+/-- `if let Some(c) = iter.peek()` -/
+def Iter.peekIs (it : Iter) (c : UInt8) : Bool :=
+  match it.rest with
+  | b :: _ => b == c
+  | [] => false
 
 mutual
 /-- `parse_json_iter` -/
@@ -378,9 +385,8 @@ def parseArray {N : Type} (ops : NumOps N) : Nat â†’ Iter â†’ Res (JsonValue N Ã
       if b != 0x5b then formatError it1
       else
         let it2 := skipWs it1
-        match it2.rest with
-        | 0x5d :: _ => .ok (.arr [], it2.advance)
-        | _ =>
+        if it2.peekIs 0x5d then .ok (.arr [], it2.advance)
+        else
           (parseValue ops f it2).bind fun (v, it3) =>
             (parseArrayRest ops f it3 [v]).map fun (xs, it4) => (.arr xs, it4)
 /-- the `loop` of `parse_array_entries` -/
